@@ -85,7 +85,7 @@ def a_coreRunExec(T):
 
 # ---------------------------------------------------------------- (b) shuffle bookkeeping
 def _is_if_shuffle(st):
-    return isinstance(st, ast.If) and ast.unparse(st.test) == 'shuffle'
+    return isinstance(st, ast.If) and _mentions(st.test, 'shuffle') and not _mentions(st.test, 'info')
 
 
 def _run_start(st):
@@ -152,7 +152,7 @@ def _run_call(lean_fn, n_pos):
 
 def a_coreRun(T):
     spec = Spec('combo_runner', FN, {
-        'shuffle': ('shuffle', B), 'settings': ('settings', L(A)),
+        'shuffle': ('shuffle', B), 'flat': ('flat', B), 'settings': ('settings', L(A)),
         'executor is not None': ('execGiven', B), 'parallel or num_workers': ('poolAsked', B),
     }, types={'results_linear': L(R)}, result=['settings', 'results_linear'], start=_run_start, stop=_run_stop,
         skip=_run_skip, stmts=[(_is_shuffle, _h_shuffle)], consts={'leR': 'leR'},
@@ -258,7 +258,7 @@ ANCHORS = [
      '(constants : List (String × V)) : ' f'{PYERR} (List String × List (List V) × List (List (String × V)))', a_coreEnum),
     ('coreRunSeq', '{α β : Type} (f : α → β) (settings : List α) : ' f'{PYERR} (List β)', a_coreRunSeq),
     ('coreRunExec', '{α β φ : Type} (submit : α → φ) (getResult : φ → β) (settings : List α) : ' f'{PYERR} (List β)', a_coreRunExec),
-    ('coreRun', '{α β : Type} (leR : β → β → Bool) (σ : List Nat) (shuffle execGiven poolAsked : Bool) '
+    ('coreRun', '{α β : Type} (leR : β → β → Bool) (σ : List Nat) (shuffle flat execGiven poolAsked : Bool) '
      '(runSeq runExec : List α → List β) (settings : List α) : ' f'{PYERR} (List α × List β)', a_coreRun),
     ('unflatten', '{V β : Type} [BEq V] (store : List (List V × Core.Nest β)) (allComboValues : List (List V)) '
      '(allNan : Core.Nest β) : ' f'{PYERR} (Core.Nest β)', a_unflatten),
